@@ -3,6 +3,8 @@
   (helpers: Lemmas/Re.lean, ReEval.lean, ReAlgebra.lean).
 -/
 import YaraModel.Lemmas.ReAlgebra
+import YaraModel.Lemmas.ReVm
+import YaraModel.Model.ReEmit
 namespace YaraModel.C03
 open YaraModel.Re
 
@@ -61,5 +63,23 @@ theorem decompose (fl : Flags) (buf : Bytes) (r : Re) (atoms : List (Ctx × Re))
 example : Cover (.cat (.plus (.cat (.lit 97) (.lit 98)) true) (.lit 99))
     [(.catL (.plusIn .hole true) (.lit 99), .cat (.lit 97) (.lit 98))] :=
   .catL (.plus (.leaf _))
+
+
+open YaraModel.ReVm in
+/-- `vm_reports_reachable`: whatever the model of `yr_re_exec` reports — the lengths handed to the callback in exhaustive
+    mode, the value left in `*matches`, also in the scan mode of the `matches` operator — is the number of matched bytes of
+    a fiber that (a) is reachable in the abstract machine by ε-steps (every branch `_yr_re_fiber_sync` can take),
+    zero-width steps and consuming steps and (b) stands at RE_OPCODE_MATCH.  Holds for ANY bytecode, flags and input: the
+    fiber list, its de-duplication, the executed-split set and KILL_TAIL only ever REMOVE behaviours.  (First half of VM
+    soundness; the second half — reachable-at-MATCH implies a match of the expression — is proved for the ε-loop-free
+    hex fragment in Thm/C02 `vm_sound_partial`; for `*`, `+`, `{n,m}` it needs the counter-stack invariant: not yet proved.) -/
+theorem vm_reports_reachable (e : Env) (m : Int) (c : List Nat) (h : exec e = .done m c) :
+    (∀ L, L ∈ c → ∃ f, Reach e f L ∧ u8 e.code f.ip = OP_MATCH) ∧
+    (0 ≤ m → ∃ f, Reach e f m.toNat ∧ u8 e.code f.ip = OP_MATCH) :=
+  exec_sound e m c h
+
+open YaraModel.ReVm YaraModel.ReEmit in
+/-- instance: the model of `yr_re_exec` on the code emitted for `a(b|c)*d` (greedy) over `abcbd` reports 5 -/
+example : exec { code := (emitCode false (.cat (.lit 97) (.cat (.star (.alt (.lit 98) (.lit 99)) true) (.lit 100)))).toArray, entry := 0, buf := "abcbd".toUTF8.data, start := 0, fl := {} } = .done 5 [] := by decide
 
 end YaraModel.C03
